@@ -197,7 +197,9 @@ def run_check(cid, tier, only=None, verbose=True):
                     problems.append(f'{it.name}: validation replay {rr.get("status")}: {(rr.get("error") or "")[:400]}')
                     continue
                 diffs = _same_obs(v['observed'], rr.get('observed', []))
-                if diffs or rr.get('failures'):
+                if r.get('sat', 0) or r.get('unknown', 0):
+                    pass        # instance already has failing obligations: those are replayed and reported separately
+                elif diffs or rr.get('failures'):
                     problems.append(f'{it.name}: translator validation mismatch {diffs[:3]} failures={rr.get("failures")}')
                 else:
                     tot['validated'] += 1
